@@ -466,6 +466,45 @@ def norm_len(t, tvals):
     return t
 
 
+PAIR_TABLES = (('CALL', ('VAR', 'list'), ('CALL', ('VAR', 'zip'), ('STAR', MAPCALL))),
+               ('CALL', ('VAR', 'tuple'), ('CALL', ('VAR', 'zip'), ('STAR', MAPCALL))))
+T_LINE, T_COL = ('UNPACK', MAPCALL, 0), ('UNPACK', MAPCALL, 1)
+
+
+def norm_pair_tables(t):
+    """the two per-index tables kept as one list of (line, column) pairs - list(zip(*map(text))) - are
+    read back as the two tables: pairs[i] unpacked / splatted is (lines[i], columns[i])"""
+    if not isinstance(t, tuple):
+        return t
+    if t in PAIR_TABLES:
+        return t
+    t = tuple(norm_pair_tables(x) for x in t)
+    if t[:1] == ('UNPACK',) and isinstance(t[1], tuple) and t[1][:1] == ('SUB',) and t[1][1] in PAIR_TABLES \
+            and t[2] in (0, 1):
+        return ('SUB', (T_LINE, T_COL)[t[2]], t[1][2])
+    if t[:1] == ('SUB',) and isinstance(t[1], tuple) and t[1][:1] == ('SUB',) and t[1][1] in PAIR_TABLES \
+            and t[2] in (('CONST', '0'), ('CONST', '1')):
+        return ('SUB', (T_LINE, T_COL)[int(t[2][1])], t[1][2])
+    if t[:1] == ('CALL',):
+        if t[1] == ('VAR', 'len') and len(t) == 3 and t[2] in PAIR_TABLES:
+            return ('CALL', ('VAR', 'len'), T_LINE)
+        out = []
+        for a in t[2:]:
+            if isinstance(a, tuple) and a[:1] == ('STAR',) and isinstance(a[1], tuple) and a[1][:1] == ('SUB',) \
+                    and a[1][1] in PAIR_TABLES:
+                out += [('SUB', T_LINE, a[1][2]), ('SUB', T_COL, a[1][2])]
+            else:
+                out.append(a)
+        return t[:2] + tuple(out)
+    return t
+
+
+def uses_pair_table(paths):
+    return any(P.contains(s[3] if s[0] == 'E' else s[1] if s[0] in ('T', 'X', 'Y') else None,
+                          lambda x: x in PAIR_TABLES)
+               for p in paths for s in p.steps if s[0] in ('E', 'T', 'X', 'Y'))
+
+
 def table_terms(fn_paths):
     """terms that denote the per-index tables inside a function: results of the map call"""
     out = {}
@@ -490,7 +529,12 @@ def finalize_rules(fns, what, bad):
     E = P.Enumerator()
     paths = E.function(fn)
     nob = 0
+    pair_form = uses_pair_table(paths)
+    if pair_form:
+        paths = [P.map_path(p, norm_pair_tables) for p in paths]
     tables = table_terms(paths)
+    if pair_form and not tables:
+        tables = {'<lines>': T_LINE, '<columns>': T_COL}
     # the tables cover the whole text
     for name, t in tables.items():
         nob += 1
@@ -677,6 +721,8 @@ def check_position_helper(h, tables, what, bad, closure=None):
     for k in tables:
         env.setdefault(k, tables[k])
     ps = P.Enumerator().function(h, params=env)
+    if uses_pair_table(ps) or any(P.contains(v, lambda x: x in PAIR_TABLES) for v in env.values()):
+        ps = [P.map_path(p, norm_pair_tables) for p in ps]
     tvals = set(tables.values())
     for p in ps:
         if p.end[0] != 'return':
